@@ -71,7 +71,7 @@ def harnesses():
                      stubs=FWD, abstract=True, timeout=900, free_bits=2 * b + 32,
                      domain="FULL pairs, any u32 exponent; inherent pow/inv_ring/gcd/lcm/gcd_extended replaced by tagged mixing functions",
                      fns=["Pow", "Inv", "PrimInt::pow", "Integer::{gcd,lcm,extended_gcd}"],
-                     covers_required=(["primint-pow", "lcm-some"] if b > 0 else [])))
+                     covers_required=((["primint-pow"] + (["lcm-some"] if b > 1 else [])) if b > 0 else [])))   # 1 bit: the lcm stub is always None
         if b > 0:
             out.append(H("c20_nt_lcm_none_panics_%d" % b, "C20", "c20::nt_lcm_none_panics::<%d,%d>" % (b, l), unwind=un, tier=tier,
                          inst=inst, stubs=FWD, abstract=True, timeout=900, free_bits=2 * b, kind="never_returns",
